@@ -135,6 +135,8 @@ bool vp_combinators(int x, int* p, vp_S sv, char const* str)
   r = param_matches(_, std::ref(x)) && param_matches(ANY(int), std::ref(x)) && param_matches(5, std::ref(x)) && r;
   r = param_matches(MEMBER_IS(&vp_S::m, vp_abs<1>{}), std::ref(sv)) && r;
   r = param_matches(re("a"), std::ref(str)) && r;
+  std::string stdstr(str);
+  r = param_matches(re("a"), std::ref(stdstr)) && r;
   return r;
 }
 
@@ -152,6 +154,8 @@ bool vp_ranges(int (&arr)[3], int (&arr0)[1])
   r = param_matches(range_any_of(vp_abs<1>{}), std::ref(arr)) && r;
   r = param_matches(range_none_of(vp_abs<1>{}), std::ref(arr)) && r;
   r = param_matches(range_is(1, 2, 3), std::ref(arr)) && r;
+  r = param_matches(range_starts_with(vp_abs<1>{}, vp_abs<2>{}, vp_abs<3>{}), std::ref(arr)) && r;
+  r = param_matches(range_ends_with(vp_abs<1>{}, vp_abs<2>{}, vp_abs<3>{}), std::ref(arr)) && r;
   return r;
 }
 
